@@ -460,6 +460,11 @@ func (cc *connectStreamingClientConn) Receive(msg any) error {
 		cc.duplexCall.SetError(serverErr)
 		return serverErr
 	}
+	// If the stream ended without an end-of-stream message, the response is
+	// incomplete: don't report a clean EOF.
+	if errors.Is(err, io.EOF) && !errors.Is(err, errSpecialEnvelope) {
+		err = errorf(CodeInternal, "protocol error: %w", io.ErrUnexpectedEOF)
+	}
 	// There's no error in the trailers, so this was probably an error
 	// converting the bytes to a message, an error reading from the network, or
 	// just an EOF. We're going to return it to the user, but we also want to
